@@ -156,10 +156,24 @@ def assemble(unit_dir, cfg, read=repo_read):
             raise Undecided("lost anchor: %s :: %s (%s)" % (rel, " :: ".join(ent["item"]), e))
         key = rel + " :: " + " :: ".join(ent["item"])
         kind = it.kind
+        if "capture" in ent:
+            # sub-expression slice: the single group of a regex on the comment-free, whitespace-collapsed body
+            import re as _re
+            btxt = rs.fn_body_text(text, it)
+            mms = list(_re.finditer(ent["capture"], btxt))
+            if len(mms) != 1:
+                raise Undecided("lost anchor: capture %r matches %d times in %s" % (ent["capture"], len(mms), key))
+            ent = dict(ent, let="capture:" + ent["name"])
+            # two groups: a statement prefix (the `let`s the expression depends on) followed by the expression
+            _captured = mms[0].group(1) if mms[0].lastindex == 1 else (mms[0].group(1) + " " + mms[0].group(2))
+            for a_, b_ in ent.get("subst_optional", {}).items():
+                _captured = _captured.replace(a_, b_)
+        else:
+            _captured = None
         if "let" in ent:
             # statement slice: initialiser of one `let`, wrapped as a function of its free names
             try:
-                expr = rs.slice_let(text, it, ent["let"], ent.get("nth", 0), ent.get("count"))
+                expr = _captured if _captured is not None else rs.slice_let(text, it, ent["let"], ent.get("nth", 0), ent.get("count"))
             except rs.ScanError as e:
                 raise Undecided("lost anchor: %s :: let %s (%s)" % (key, ent["let"], e))
             for a_, b_ in ent.get("subst", {}).items():
